@@ -332,6 +332,7 @@ class SimEnv:
         self.label_fn = None                # fn(header, payload) -> label suffix
         self.on_fault = None                # fn(kind) called when a link fault is injected
         self.on_rx = None                   # fn(link_index) called when receive_packet returns a packet
+        self.on_tx = None                   # fn(link_index, header, data, status) at every send_packet
 
 
 def make_driver_class():
@@ -375,6 +376,8 @@ def make_driver_class():
             if self.closed:
                 self.sent_after_close += 1
                 env.tx.append((now, self.index, header, data, 'CLOSED'))
+                if env.on_tx:
+                    env.on_tx(self.index, header, data, 'CLOSED')
                 return False
             if env.send_fault and not self.errored:
                 if env.chooser(2, 'send_fault') == 1:
@@ -387,6 +390,8 @@ def make_driver_class():
                         cb('SimLink: could not send packet')
                     return False
             env.tx.append((now, self.index, header, data, 'ok'))
+            if env.on_tx:
+                env.on_tx(self.index, header, data, 'ok')
             if self.errored:
                 return False
             replies = env.dev.handle(header, data, now)
